@@ -19,7 +19,7 @@ def feat(rng):
 
 def run_shard(ctx):
     d = drive.Driver(ctx, feat, flags="random", styles=("mixed", "runs", "dups"))
-    d.loop(2500, 60000)
+    d.loop(3000, 250000)
 
 
 def replay(ctx, case):
